@@ -14,6 +14,9 @@ from lib import facts, mir  # noqa: E402
 from rules import panics  # noqa: E402
 
 G = lambda cond, value=True: {"cond": cond, "value": value}  # noqa: E731
+# "the value is >= 1 here", in whichever way the rejection of 0 was written
+POSITIVE = {"any": [G(" Eq const:0)", False), G(" Le const:0)", False), G(" Lt const:1)", False),
+                    G(" Gt const:0)", True), G(" Ge const:1)", True), G(" Ne const:0)", True)]}
 
 LEXINV = ("variable names reaching Var start with an ASCII upper-case letter: the lexer only "
           "starts identifiers on is_ascii_alphabetic and upper-cases every character "
@@ -116,14 +119,14 @@ ROWS = [
      "(re-verified by C07.a)", None),
     (r"^mach::function::Function::instr/assert:Overflow\(Sub,usize\)#1$", "guarded",
      "start - 1 after the `start <= 0` rejection (start is then cast from a positive i16)",
-     G([" Le const:0)", " Eq const:0)"], False)),
+     POSITIVE),
     (r"^mach::function::Function::instr::\{closure#0\}/assert:Overflow\(Add,usize\)#1$",
      "bounded", "only runs when char position start-1 exists in a string, so start <= its "
      "length", None),
     (r"^mach::function::Function::mid/assert:Overflow\(Sub,usize\)#1$", "guarded",
-     "pos - 1 after the `pos == 0` rejection", G(" Eq const:0)", False)),
+     "pos - 1 after the `pos == 0` rejection", POSITIVE),
     (r"^mach::function::Function::right/assert:Overflow\(Sub,usize\)#1$", "guarded",
-     "len - 1 after the `len == 0` early return", G(" Eq const:0)", False)),
+     "len - 1 after the `len == 0` early return", POSITIVE),
     (r"^mach::function::Function::rnd/assert:Overflow\(Mul,u32\)#\d$", "bounded",
      "state words are < 30323 after the first step and <= 2^24 when seeded (mask 0x00FFFFFF, "
      "+1 in CLEAR): 172 * 2^24 < 2^32", None),
@@ -178,7 +181,7 @@ ROWS = [
      "pc + len / pc + select-1 with both operands checked non-negative and bounded by i16",
      G(" Lt const:0)", False)),
     (r"^mach::runtime::Runtime::on/assert:Overflow\(Sub,usize\)#1$", "guarded",
-     "select - 1 after select == 0 was handled", G(" Eq const:0)", False)),
+     "select - 1 after select == 0 was handled", POSITIVE),
     (r"^mach::runtime::Runtime::tron/assert:Overflow\(Sub,usize\)#1$", "reasoned",
      "pc was incremented by execute_loop before dispatch, so pc >= 1", None),
     # ---- stack / var ------------------------------------------------------------------------
